@@ -149,6 +149,7 @@ func c02() *core.Check {
 		{Gen: "decoy", N: 0},
 		{Gen: "scale", N: 256 << 10},
 		{Gen: "pairs", N: 64 << 10},
+		{Gen: "triples", N: 48 << 10},
 	}
 	thorough := []Mix{
 		{Gen: "corpus"}, {Gen: "bytes"}, {Gen: "trunc"},
@@ -162,11 +163,12 @@ func c02() *core.Check {
 		{Gen: "scale", N: 4 << 20},
 		{Gen: "pairs", N: 1 << 20},
 		{Gen: "allbytes", N: 4 << 20},
+		{Gen: "triples", N: 256 << 10},
 	}
 	return &core.Check{
 		ID:       "C02",
 		MaxStack: 256 << 10,
-		Rule: "inputs: corpus + seeds, every truncation of them (plus dangling openers), bounded-exhaustive sequences over the HTML-significant alphabet, random atom sequences, havoc / novelty-guided mutation, every delimited construct with decoy terminators, every scale family at 256 KiB (thorough: 4 MiB), every ordered pair of alphabet bytes repeated to 64 KiB (thorough: 1 MiB, and all 256 single bytes x 4 MiB). " +
+		Rule: "inputs: corpus + seeds, every truncation of them (plus dangling openers), bounded-exhaustive sequences over the HTML-significant alphabet, random atom sequences, havoc / novelty-guided mutation, every delimited construct with decoy terminators, every scale family at 256 KiB (thorough: 4 MiB), every ordered pair of alphabet bytes repeated to 64 KiB (thorough: 1 MiB, and all 256 single bytes x 4 MiB), every ordered triple of 14 structural bytes repeated to 48 KiB (thorough 256 KiB). " +
 			"Each case runs IsXSS, each of the five contexts separately, and the tokenizer from each context with a step cap. Goroutine stack ceiling 256 KiB. Non-trivial = the tokenizer produced at least one token in some context.",
 		Plan: func(tier string, seed uint64) []core.Unit {
 			mixes := quick
@@ -182,6 +184,11 @@ func c02() *core.Check {
 					n := len(htmlPairAlphabet)
 					for i := 0; i < n*n; i += 8 {
 						us = append(us, core.Unit{Gen: "pairs", Lo: uint64(i), Hi: uint64(min(i+8, n*n)), Arg: fmt.Sprint(m.N)})
+					}
+				case "triples":
+					n := len(htmlTripleAlphabet)
+					for i := 0; i < n*n*n; i += 16 {
+						us = append(us, core.Unit{Gen: "triples", Lo: uint64(i), Hi: uint64(min(i+16, n*n*n)), Arg: fmt.Sprint(m.N)})
 					}
 				case "allbytes":
 					for i := 0; i < 256; i += 4 {
@@ -204,6 +211,8 @@ func c02() *core.Check {
 				genPairs(u, emit)
 			case "allbytes":
 				genAllBytes(u, emit)
+			case "triples":
+				genTriples(u, emit)
 			}
 		},
 		One: func(w *core.Worker, c core.Case) {
@@ -263,6 +272,24 @@ func genPairs(u core.Unit, emit func(core.Case)) {
 		for _, pre := range []string{"", "<a "} {
 			emit(core.Case{In: genScale(pre, a+b, "", size), Desc: genScaleDesc(pre, a+b, "", size)})
 		}
+	}
+}
+
+// every ordered triple of structural bytes, repeated: recursion between state
+// functions that needs a three-byte period (e.g. "</>") shows up here.
+var htmlTripleAlphabet = []string{"<", ">", "/", "=", "'", "\"", "`", "!", "-", "?", "%", " ", "a", "\x00"}
+
+func genTriples(u core.Unit, emit func(core.Case)) {
+	n := len(htmlTripleAlphabet)
+	var size int
+	fmt.Sscan(u.Arg, &size)
+	for i := u.Lo; i < u.Hi; i++ {
+		a, b, c := htmlTripleAlphabet[int(i)/(n*n)], htmlTripleAlphabet[int(i)/n%n], htmlTripleAlphabet[int(i)%n]
+		if a == b && b == c {
+			continue
+		}
+		pre := []string{"", "<a ", "x'>"}[int(i)%3]
+		emit(core.Case{In: genScale(pre, a+b+c, "", size), Desc: genScaleDesc(pre, a+b+c, "", size)})
 	}
 }
 
